@@ -239,3 +239,53 @@ func closureEscape(mc *ssa.MakeClosure) ssa.Instruction {
 	}
 	return nil
 }
+
+// FreshPerIteration: v (seen through interface/pointer conversions) is an object allocated inside the innermost loop
+// that contains the instruction at (or at is in no loop): each iteration hands on its own object.
+func FreshPerIteration(at ssa.Instruction, v ssa.Value) bool {
+	for i := 0; i < 6; i++ {
+		switch x := v.(type) {
+		case *ssa.MakeInterface:
+			v = x.X
+			continue
+		case *ssa.ChangeType:
+			v = x.X
+			continue
+		case *ssa.ChangeInterface:
+			v = x.X
+			continue
+		}
+		break
+	}
+	al, ok := v.(*ssa.Alloc)
+	if !ok {
+		return false
+	}
+	fn := at.Parent()
+	b := at.Block()
+	toB := reachTo(b)
+	var inner *ssa.BasicBlock
+	for e := range BackEdges(fn) {
+		h := e.To()
+		if !h.Dominates(b) {
+			continue
+		}
+		// b is in the loop of h if b reaches the latch
+		if !(b == e.From || reachTo(e.From)[b]) {
+			continue
+		}
+		if inner == nil || inner.Dominates(h) {
+			inner = h
+		}
+	}
+	_ = toB
+	if inner == nil {
+		return true
+	}
+	ab := al.Block()
+	if ab == inner || !inner.Dominates(ab) {
+		return false
+	}
+	// the allocation block lies on a path header -> ... -> b within the loop
+	return ab == b || reachTo(b)[ab]
+}
